@@ -43,7 +43,10 @@ unsigned char g_gen[NP];                    /* bumped when the environment re-us
 #define MP_mark(x) ((x) & (mptr)1)
 #define MP_get(x) ((x) & ~(mptr)1)
 #define MP_make(p, m) ((mptr)(p) | (mptr)(m))
-#define KEY_LESS(a, b) ((a) < (b))          /* compare = std::less<int> */
+/* compare: a strict weak order whose equivalence is COARSER than Key::operator== (the comparer ignores the lowest bit, like a case-insensitive string order):
+   the set is a set up to the comparer's equivalence (KEY_EQ), never up to operator== */
+#define KEY_LESS(a, b) (((a) | 1) < ((b) | 1))
+#define KEY_EQ(a, b) (!KEY_LESS(a, b) && !KEY_LESS(b, a))
 #define XV_BACKOFF() ((void)0)
 
 static _Bool node_safe(size_t i) { return i < NP && g_alloc[i] && (g_cnt[i] > 0 || !g_pub[i]); }
@@ -238,7 +241,7 @@ static void build(void) {
     XV_ASSUME(in_kind[i] <= K_UNLINKED && in_unext[i] <= NP);
     pool[i].key = (hkey)in_key[i]; g_cnt[i] = 0; u_unlink[i] = 0; u_retire[i] = 0; g_gen[i] = 0; g_linked[i] = 0;
     if (in_kind[i] == K_LINKED) {
-      XV_ASSUME(!have || in_key[i] < lastkey); lastkey = in_key[i]; have = 1;
+      XV_ASSUME(!have || KEY_LESS(in_key[i], lastkey)); lastkey = in_key[i]; have = 1;
       pool[i].next = nxt | (mptr)in_mark[i]; nxt = NADDR(i); g_alloc[i] = 1; g_pub[i] = 1; g_retired[i] = 0; g_linked[i] = 1;
     } else if (in_kind[i] == K_UNLINKED) {      /* marked, spliced out earlier; its frozen next may point anywhere (even to re-used memory) */
       pool[i].next = (in_unext[i] == NP ? (mptr)0 : NADDR(in_unext[i])) | (mptr)1; g_alloc[i] = 1; g_pub[i] = 1; g_retired[i] = (unsigned char)in_retired[i];
@@ -256,7 +259,7 @@ static void snapshot(void) {
   for (int i = 0; i < NP; i++) { pre_kind[i] = i < L ? in_kind[i] : K_FREE; pre_key[i] = pool[i].key; pre_next[i] = pool[i].next; pre_retired[i] = g_retired[i]; }
 }
 static _Bool pre_live(size_t i) { return i < NP && pre_kind[i] == K_LINKED && MP_mark(pre_next[i]) == 0; }
-static _Bool pre_has(hkey k) { _Bool r = 0; for (int i = 0; i < NP; i++) if (pre_live(i) && pre_key[i] == k) r = 1; return r; }
+static _Bool pre_has(hkey k) { _Bool r = 0; for (int i = 0; i < NP; i++) if (pre_live(i) && KEY_EQ(pre_key[i], k)) r = 1; return r; }
 /* a guard held by the handle under test: empty (idx == NP) or any published, not freed node */
 static void give_guard(struct guard* g, unsigned idx) {
   XV_ASSUME(idx <= NP);
@@ -277,7 +280,7 @@ static _Bool walk(void) {
     size_t i = NIDX(p);
     if (i >= NP || p != NADDR(i) || post_in[i]) { ok = 0; break; }
     if (!g_alloc[i] || !g_pub[i] || g_retired[i] != 0) ok = 0;
-    if (have && !(last < pool[i].key)) ok = 0;
+    if (have && !KEY_LESS(last, pool[i].key)) ok = 0;
     post_in[i] = 1; last = pool[i].key; have = 1;
     p = MP_get(pool[i].next);
   }
@@ -285,7 +288,7 @@ static _Bool walk(void) {
   return ok;
 }
 static _Bool post_live(size_t i) { return i < NP && post_in[i] && MP_mark(pool[i].next) == 0; }
-static _Bool post_has(hkey k) { _Bool r = 0; for (int i = 0; i < NP; i++) if (post_live(i) && pool[i].key == k) r = 1; return r; }
+static _Bool post_has(hkey k) { _Bool r = 0; for (int i = 0; i < NP; i++) if (post_live(i) && KEY_EQ(pool[i].key, k)) r = 1; return r; }
 /* first node of the current chain whose key is >= k (and which is not `except`); NP if none */
 static size_t first_ge(hkey k, size_t except) {
   size_t best = NP;
@@ -395,7 +398,7 @@ static _Bool find_ensures(struct find_info* f, hkey key, _Bool r) {
   if (!(aie_ok && aie_cell == f->prev && aie_val == f->cur.ptr)) return 0;
   if (G_GET(f->cur) != 0 && !(rd_has[c] && rd_val[c] == f->next)) return 0;
   if (G_GET(f->cur) != 0 && m_marked && c == in_m && g_gen[in_m] == m_gen) return 0;
-  if (m_marked && g_gen[in_m] == m_gen && g_alloc[in_m] && pool[in_m].key == key && g_linked[in_m]) return 0;
+  if (m_marked && g_gen[in_m] == m_gen && g_alloc[in_m] && KEY_EQ(pool[in_m].key, key) && g_linked[in_m]) return 0;
   return 1;
 }
 #ifdef XV_INT
@@ -416,7 +419,7 @@ static _Bool find_stub(struct hms* self, hkey key, struct find_info* f, int* bo)
   XV_ASSUME(find_ensures(f, key, r));
   m_marked = keep_m;
   XV_ASSUME(c == NP || !(em[c] && eg[c] == g_gen[c]));
-  for (int i = 0; i < NP; i++) XV_ASSUME(!(em[i] && eg[i] == g_gen[i] && g_alloc[i] && pool[i].key == key && g_linked[i]));
+  for (int i = 0; i < NP; i++) XV_ASSUME(!(em[i] && eg[i] == g_gen[i] && g_alloc[i] && KEY_EQ(pool[i].key, key) && g_linked[i]));
   return r;
 }
 #undef HMS_FIND
@@ -484,7 +487,7 @@ void h_find(void) {
   _Bool wf = walk();
   size_t c = NIDX(G_GET(info.cur)), s = NIDX(G_GET(info.save));
   XV_OBL("hms.find.iff_live", r == pre_has(in_k));
-  if (r) XV_OBL("hms.find.iff_live", G_GET(info.cur) != 0 && c < NP && post_live(c) && pool[c].key == in_k && pre_live(c));
+  if (r) XV_OBL("hms.find.iff_live", G_GET(info.cur) != 0 && c < NP && post_live(c) && KEY_EQ(pool[c].key, in_k) && pre_live(c));
   XV_OBL("hms.find.position", wf);
   XV_OBL("hms.find.position", G_MARK(info.cur) == 0 && *info.prev == G_GET(info.cur));
   XV_OBL("hms.find.position", (G_GET(info.cur) == 0 ? NP : c) == first_ge(in_k, NP));
@@ -510,7 +513,7 @@ void h_find(void) {
 /* no guard of a finished operation is left behind */
 static _Bool no_guards(size_t j) { return g_cnt[j] == 0; }
 /* the unique live node with key k in the pre-state, NP if none */
-static size_t pre_node_of(hkey k) { size_t r = NP; for (int i = 0; i < NP; i++) if (pre_live(i) && pre_key[i] == k) r = i; return r; }
+static size_t pre_node_of(hkey k) { size_t r = NP; for (int i = 0; i < NP; i++) if (pre_live(i) && KEY_EQ(pre_key[i], k)) r = i; return r; }
 
 void h_contains(void) {
   build(); in_k = nondet_key(); in_j = nondet_size(); XV_ASSUME(in_j < NP);
@@ -563,7 +566,7 @@ void h_emplace_or_get(void) {
   _Bool r = hms_emplace_or_get(&the_set, &it, in_k);
   _Bool wf = walk(); size_t t = pre_node_of(in_k);
   XV_OBL("hms.insert.iff_absent", r == !pre_has(in_k));
-  XV_OBL("hms.insert.iff_absent", wf && post_has(in_gk) == (pre_has(in_gk) || in_gk == in_k));
+  XV_OBL("hms.insert.iff_absent", wf && post_has(in_gk) == (pre_has(in_gk) || KEY_EQ(in_gk, in_k)));
   XV_OBL("hms.insert.iff_absent", frame_ok(in_j) && n_mark == 0 && n_illegal == 0 && g_new == 1 && !g_bad_delete);
   if (r) {
     XV_OBL("hms.insert.iff_absent", post_live(L) && pool[L].key == in_k && g_pub[L] && g_alloc[L] && g_delete == 0 && n_link == 1 && last_linked == L && last_link_validated);
@@ -588,7 +591,7 @@ void h_emplace(void) {
   snapshot();
   _Bool r = hms_emplace(&the_set, in_k);
   _Bool wf = walk();
-  XV_OBL("hms.insert.iff_absent", r == !pre_has(in_k) && wf && post_has(in_gk) == (pre_has(in_gk) || in_gk == in_k) && frame_ok(in_j));
+  XV_OBL("hms.insert.iff_absent", r == !pre_has(in_k) && wf && post_has(in_gk) == (pre_has(in_gk) || KEY_EQ(in_gk, in_k)) && frame_ok(in_j));
   XV_OBL("hms.insert.iff_absent", r ? (post_live(L) && pool[L].key == in_k && g_delete == 0) : (!g_alloc[L] && g_delete == 1 && !g_bad_delete));
   XV_OBL("hms.insert.guards", no_guards(in_j) && no_guards(L));
   XV_OBL("hms.insert.safe", !g_unsafe);
@@ -601,9 +604,9 @@ void h_erase(void) {
   _Bool r = hms_erase(&the_set, in_k);
   _Bool wf = walk(); size_t t = pre_node_of(in_k);
   XV_OBL("hms.erase.iff_present", r == pre_has(in_k));
-  XV_OBL("hms.erase.iff_present", wf && post_has(in_gk) == (pre_has(in_gk) && in_gk != in_k));
+  XV_OBL("hms.erase.iff_present", wf && post_has(in_gk) == (pre_has(in_gk) && !KEY_EQ(in_gk, in_k)));
   if (r) {
-    XV_OBL("hms.erase.iff_present", n_mark == 1 && last_marked == t && pool[t].next == (pre_next[t] | 1) && pool[t].key == in_k);
+    XV_OBL("hms.erase.iff_present", n_mark == 1 && last_marked == t && pool[t].next == (pre_next[t] | 1) && KEY_EQ(pool[t].key, in_k));
     XV_OBL("hms.erase.unlinked_retired", !post_in[t] && g_retired[t] == 1 && g_alloc[t]);
     XV_CANARY("erase.true");
   } else { XV_OBL("hms.erase.iff_present", n_mark == 0); XV_CANARY("erase.false"); }
@@ -645,7 +648,7 @@ void h_iter_inc(void) {
   XV_OBL("hms.iter.inc.next_live", wf && nc == first_ge(k0, c0));
   if (c0_marked && nc != NP) XV_OBL("hms.iter.inc.next_live", post_live(nc));
   if (pre_live(in_j) && KEY_LESS(k0, pre_key[in_j])) XV_OBL("hms.iter.inc.no_skip", nc != NP && !KEY_LESS(pool[in_j].key, pool[nc].key));
-  XV_OBL("hms.iter.inc.progress", nc != c0 && (nc == NP || KEY_LESS(k0, pool[nc].key) || (c0_marked && pool[nc].key == k0)));
+  XV_OBL("hms.iter.inc.progress", nc != c0 && (nc == NP || KEY_LESS(k0, pool[nc].key) || (c0_marked && KEY_EQ(pool[nc].key, k0))));
   XV_OBL("hms.iter.inc.position", iter_inv(&g_it) && *g_it.info.prev == G_GET(g_it.info.cur));
   XV_OBL("hms.iter.inc.frame", frame_ok(in_j) && g_new == 0 && g_delete == 0 && n_link == 0 && n_mark == 0 && n_illegal == 0);
   XV_OBL("hms.iter.inc.guards", g_cnt[in_j] == (int)guards_on(&g_it.info, in_j));
@@ -655,7 +658,7 @@ void h_iter_inc(void) {
   if (!c0_marked && nc == NP) XV_CANARY("inc.fast_to_end");
   if (c0_marked && in_kind[c0] == K_LINKED) XV_CANARY("inc.cur_marked_linked");
   if (c0_marked && in_kind[c0] == K_UNLINKED) XV_CANARY("inc.cur_unlinked");
-  if (c0_marked && nc != NP && pool[nc].key == k0) XV_CANARY("inc.key_reinserted");
+  if (c0_marked && nc != NP && KEY_EQ(pool[nc].key, k0)) XV_CANARY("inc.key_reinserted");
   if (c0_marked && in_start != NP && MP_mark(pre_next[in_start])) XV_CANARY("inc.save_marked");
   if (c0_marked && in_start != NP && !MP_mark(pre_next[in_start]) && pre_next[in_start] != NADDR(c0)) XV_CANARY("inc.pred_changed");
 }
@@ -673,7 +676,7 @@ void h_erase_it(void) {
   size_t nc = G_GET(ret.info.cur) == 0 ? NP : NIDX(G_GET(ret.info.cur));
   XV_OBL("hms.iter.erase.exact", wf && MP_mark(pool[c0].next) != 0 && MP_get(pool[c0].next) == MP_get(pre_next[c0]) && pool[c0].key == k0);
   XV_OBL("hms.iter.erase.exact", n_mark == (c0_marked ? 0 : 1) && (c0_marked || last_marked == c0));
-  XV_OBL("hms.iter.erase.exact", post_has(in_gk) == (pre_has(in_gk) && !(pre_live(c0) && in_gk == k0)));
+  XV_OBL("hms.iter.erase.exact", post_has(in_gk) == (pre_has(in_gk) && !(pre_live(c0) && KEY_EQ(in_gk, k0))));
   XV_OBL("hms.iter.erase.unlinked_retired", !post_in[c0] && g_alloc[c0] && g_retired[c0] == (pre_kind[c0] == K_LINKED ? 1 : pre_retired[c0]));
   XV_OBL("hms.iter.erase.next", nc == first_ge(k0, c0) && iter_inv(&ret) && *ret.info.prev == G_GET(ret.info.cur));
   if (pre_live(in_j) && KEY_LESS(k0, pre_key[in_j])) XV_OBL("hms.iter.erase.next", nc != NP && !KEY_LESS(pool[in_j].key, pool[nc].key));
@@ -729,7 +732,7 @@ void h_iter_postinc(void) {
   XV_OBL("hms.iter.postinc.copy", g_cnt[in_j] == (int)(guards_on(&g_it.info, in_j) + guards_on(&ret.info, in_j)));     /* every guard of both iterators protects */
   size_t nc = G_GET(g_it.info.cur) == 0 ? NP : NIDX(G_GET(g_it.info.cur));
   XV_OBL("hms.iter.inc.next_live", wf && nc == first_ge(k0, c0));
-  XV_OBL("hms.iter.inc.progress", nc != c0 && (nc == NP || KEY_LESS(k0, pool[nc].key) || (c0_marked && pool[nc].key == k0)));
+  XV_OBL("hms.iter.inc.progress", nc != c0 && (nc == NP || KEY_LESS(k0, pool[nc].key) || (c0_marked && KEY_EQ(pool[nc].key, k0))));
   XV_OBL("hms.iter.inc.position", iter_inv(&g_it) && *g_it.info.prev == G_GET(g_it.info.cur));
   XV_OBL("hms.iter.inc.safe", !g_unsafe);
   /* the returned iterator stays usable: it can be advanced on its own */
@@ -816,7 +819,7 @@ void h_emplace_int(void) {
   /* true iff this operation linked its node, by a legal LINK step (key absent at that instant) whose expected value is the one find validated */
   XV_OBL("hms.insert.expected_protected", last_link_expected_protected && all_unlink_expected_protected);
   if (r) XV_OBL("hms.insert.commit", n_link == 1 && last_linked == L && last_link_validated && g_delete == 0 && g_alloc[L] && g_pub[L] && pool[L].key == in_k && G_GET(it.info.cur) == NADDR(L));
-  else XV_OBL("hms.insert.commit", n_link == 0 && g_delete == 1 && !g_alloc[L] && G_GET(it.info.cur) != 0 && c < NP && g_alloc[c] && pool[c].key == in_k);
+  else XV_OBL("hms.insert.commit", n_link == 0 && g_delete == 1 && !g_alloc[L] && G_GET(it.info.cur) != 0 && c < NP && g_alloc[c] && KEY_EQ(pool[c].key, in_k));
   XV_OBL("hms.insert.iterator", fi_ok(&it.info, in_k) && it.list == &the_set);
   XV_OBL("hms.insert.guards", g_cnt[in_j] == (int)guards_on(&it.info, in_j));
   XV_OBL("hms.insert.safe", !g_unsafe);
@@ -833,7 +836,7 @@ void h_erase_int(void) {
   env_on = 0;
   XV_OBL("hms.erase.commit", int_common() && n_link == 0 && g_new == 0 && g_delete == 0);
   /* success iff this operation's own mark CAS succeeded, on a node with that key, expecting the value it read last from that cell */
-  XV_OBL("hms.erase.commit", r ? (n_mark == 1 && last_marked_key == in_k && last_mark_was_read) : n_mark == 0);
+  XV_OBL("hms.erase.commit", r ? (n_mark == 1 && KEY_EQ(last_marked_key, in_k) && last_mark_was_read) : n_mark == 0);
   /* on return the marked node has been spliced out and retired, by this operation or by a helper */
   if (r && g_gen[last_marked] == last_marked_gen) XV_OBL("hms.erase.unlinked_retired", !g_linked[last_marked] && (!g_alloc[last_marked] || g_retired[last_marked] == 1));
   XV_OBL("hms.erase.guards", g_cnt[in_j] == 0);
